@@ -152,6 +152,39 @@ def r6_backends_tick(chk):
         r.require(cfg, 1, "engine drivers")
 
 
+def r8_pong_clock_starts_at_the_ping(chk):
+    r = chk.rule("R8", "the PONG deadline is counted from the PING, and only from the PING", "T1 who-may-write",
+                 "`last_ping_sent_time` is set to Some(..) only where a PING is created (the emission in on_tick); `waiting_for_pong` is set to true only there too: "
+                 "no other event (a later write, a flush, inbound traffic) may move the PONG deadline of an outstanding PING")
+    for cfg, prog in chk.configs():
+        n = 0
+        for body in prog.bodies.values():
+            if body.impl_self != "protocol::zmtp::engine::ZmtpEngine" or "::tests" in body.path:
+                continue
+            pings = [c for c in body.calls if c.name == "create_ping"]
+            for blk, i, st in body.statements():
+                if st["k"] != "assign" or not st["p"]["pr"] or body.blocks[blk]["cleanup"]:
+                    continue
+                pp = body.place_path(st["p"])
+                if pp not in ("self.last_ping_sent_time", "self.waiting_for_pong"):
+                    continue
+                rv = st["r"]
+                arming = (rv["k"] == "agg" and rv.get("variant") == "Some") or (rv["k"] == "use" and rv["o"].get("int") == 1) or \
+                    (rv["k"] == "use" and rv["o"]["c"] in ("copy", "move") and "Some" in body.provenance(rv["o"]))
+                if pp.endswith("last_ping_sent_time") and rv["k"] == "use" and rv["o"]["c"] in ("copy", "move"):
+                    org = body.value_origin(rv["o"])
+                    arming = not (org[0] == "agg" and org[1]["r"].get("variant") == "None")
+                if not arming:
+                    continue
+                n += 1
+                key = "%s|%s armed only with a PING" % (short(body.path), pp.split(".")[-1])
+                if any(body.dominates(c.blk, blk) for c in pings):
+                    r.ok(cfg, key, where(body, blk), "dominated by create_ping")
+                else:
+                    r.bad(cfg, key, where(body, blk), "`%s` is armed in `%s` without a PING being created on the way: the PONG deadline of an outstanding PING moves (or a wait starts with no PING on the wire), so a peer that never answers is not closed within HEARTBEAT_TIMEOUT of its PING" % (pp, body.name))
+        r.require(cfg, 2, "arming writes of the heartbeat wait state")
+
+
 def run(chk):
     chk.undecided = ["the [ivl, 2*ivl] probing window and the timeout as wall-clock facts"]
     r1_on_tick(chk)
@@ -160,6 +193,7 @@ def run(chk):
     r4_no_heartbeat_v2(chk)
     r5_timer_period(chk)
     r6_backends_tick(chk)
+    r8_pong_clock_starts_at_the_ping(chk)
     # heartbeats under an encrypting framer: PING/PONG may jump the queue only while the framer is pass-through *now*
     from rules.c18 import r6_priority_only_when_passthrough_now
     r6_priority_only_when_passthrough_now(chk, rid="R7")
